@@ -28,7 +28,7 @@ ASSUMPTIONS = [
     "the harness's HDS writer/reference reader are a faithful reading of the ploop/Parallels layout",
     "held means: held on the executions listed, not verified for all inputs",
 ]
-MINIMA = {"quick": {"reads_compared": 3000, "coincidence_cases": 20, "multi_storage_cases": 8}, "thorough": {"reads_compared": 30000}}
+MINIMA = {"quick": {"reads_compared": 3000, "coincidence_cases": 20, "multi_storage_cases": 8}, "thorough": {"reads_compared": 300000}}
 MECH = "hds.read"
 DATA = os.path.join(os.environ.get("VF_REPO", "/repo"), "tests", "data")
 
@@ -36,7 +36,7 @@ DATA = os.path.join(os.environ.get("VF_REPO", "/repo"), "tests", "data")
 def plan(tier: str, seed: int) -> list[dict]:
     rng = rng_for(seed, ID, "plan")
     cases = []
-    n = 170 if tier == "quick" else 4000
+    n = 170 if tier == "quick" else 16000
     ms_choices = [1, 2, 3, 8, 16, 64, 256, 2048] if tier == "quick" else [1, 2, 3, 5, 8, 16, 31, 64, 128, 256, 1024, 2048]
     for i in range(n):
         ms = rng.choice(ms_choices)
